@@ -19,9 +19,10 @@
 (*                   index, and the two ways of writing the LCA agree      *)
 (*   AssignedCovers  the assigned taxon is an ancestor-or-self of the      *)
 (*                   taxon of every best reference                         *)
-(* With Fixed = TRUE (pruning threshold from the length of the query       *)
-(* alone) all hold.  With Fixed = FALSE (threshold from the length of the  *)
-(* current best / current candidate, as the code was written) TLC finds    *)
+(* With Fixed = TRUE (pruning as repaired: threshold of the search from    *)
+(* the query length alone, index scan skipping a candidate) all hold.      *)
+(* With Fixed = FALSE (threshold from the length of the current best,      *)
+(* index scan stopping at a candidate - as the code was written) TLC finds *)
 (* the counter-example class of the property's rationale: ScanLossless and *)
 (* IndexLossless are violated (the aswritten cfg files).                 *)
 (* Export writes one case per state for the replay on the real code; the   *)
@@ -29,7 +30,7 @@
 (***************************************************************************)
 EXTENDS Tag, TLC, Json, CSV, IOUtils
 
-CONSTANTS Fixed,      \* TRUE: threshold from the query length (sound); FALSE: as written
+CONSTANTS Fixed,      \* TRUE: pruning as repaired (sound); FALSE: as the code was written
           Suites      \* set of records [name, queries, alpha, families, nrefs, fillers]:
                       \*   queries  : set of queries
                       \*   alpha    : letters used by the edits
